@@ -287,6 +287,8 @@ func NewFromYaml(data []byte) (*Config, error) {
 
 	if c.ProfileAddress == "" && yc.ProfilePort > 0 {
 		c.ProfileAddress = net.JoinHostPort(yc.ProfileHost, strconv.Itoa(yc.ProfilePort))
+	} else if c.ProfileAddress == "none" {
+		c.ProfileAddress = ""
 	}
 
 	if c.MetricsDurationBuckets != nil {
